@@ -131,7 +131,7 @@ func b2s(b bool) string {
 func (im *impl) apply(o qop) (res string, size int, out vh.Outcome) {
 	im.cb.evs = nil
 	ret := ""
-	out = vh.GuardTimeout(3*time.Second, func() {
+	out = vh.GuardTimeout(hangLimit, func() {
 		if !im.dbl {
 			q := im.q
 			switch o.Kind {
@@ -442,7 +442,7 @@ func repairedTimedGet(dbl bool) bool {
 	}
 	if repairProbe[i] == 0 {
 		repairProbe[i] = 1
-		vh.GuardTimeout(3*time.Second, func() {
+		vh.GuardTimeout(hangLimit, func() {
 			var v interface{}
 			var sz int
 			if dbl {
@@ -880,8 +880,8 @@ func concurrentRun(cfg concCfg) (fail string, detail map[string]interface{}) {
 	}()
 	select {
 	case <-done:
-	case <-time.After(8 * time.Second):
-		return "stranded", map[string]interface{}{"config": cfg, "what": "producers finished and stop pills were offered, but not every consumer returned within 8 s", "size": size()}
+	case <-time.After(hangLimit):
+		return "stranded", map[string]interface{}{"config": cfg, "what": "producers finished and stop pills were offered, but not every consumer returned within 25 s", "size": size()}
 	}
 	for c, n := range gotNil {
 		if n > 0 && !cfg.Timed {
@@ -1025,7 +1025,11 @@ func timed(env *vh.Env, rep *vh.Report) {
 				}
 				before := dateutil.SystemNow()
 				t0 := time.Now()
-				v := get(ms)
+				var v interface{}
+				if o := vh.GuardTimeout(time.Duration(ms)*time.Millisecond+hangLimit, func() { v = get(ms) }); o.Timeout {
+					rep.Fail("property", qname(dbl)+".GetTimeout:never-returns", fmt.Sprintf("GetTimeout(%d) on an empty queue had not returned %d ms + 25 s later", ms, ms), map[string]interface{}{"timeout_ms": ms})
+					return
+				}
 				el := time.Since(t0)
 				after := dateutil.SystemNow()
 				rep.Case(fmt.Sprintf("timed %v %d #%d", dbl, ms, i), ms > 0)
@@ -1134,7 +1138,8 @@ func main() {
 	}
 	go func() {
 		time.Sleep(deadline)
-		rep.Fail("property", "harness:deadline", fmt.Sprintf("the harness did not finish within %v: some queue operation never returned; partial report written", deadline), nil)
+		rep.Note("the harness did not finish within %v (busy machine?): partial report written; hangs of the implementation are reported by the per-call watchdogs", deadline)
+		rep.Count("harness-deadline")
 		rep.Write(env.Out)
 		os.Exit(0)
 	}()
@@ -1144,8 +1149,13 @@ func main() {
 			return
 		}
 		at("phase %s", name)
-		if o := vh.GuardTimeout(d, f); !o.OK() {
-			rep.Fail("property", "RequestQueue:"+name+"-"+o.String(), "the "+name+" part of the harness did not complete: an operation of the implementation never returned ("+vh.Clip(o.Panic, 200)+")", nil)
+		if o := vh.GuardTimeout(3*d, f); o.Panic != "" {
+			rep.Fail("correspondence", "harness:"+name+"-panic", "the "+name+" part of the harness panicked: "+vh.Clip(o.Panic, 200), nil)
+		} else if o.Timeout {
+			// every call into the implementation inside the phases has a watchdog of its own (hangLimit) that
+			// reports a hang as a finding; a phase that merely runs long on a busy machine is reduced coverage
+			rep.Note("phase %s did not finish within %v (busy machine): reduced coverage in this run, not a failure", name, 3*d)
+			rep.Count("phase-cut-short:" + name)
 		}
 	}
 	phase("blocked-consumers", 2*time.Minute, func() { blockedConsumers(env, rep) })
@@ -1216,7 +1226,7 @@ func callbackWindow(env *vh.Env, rep *vh.Report) {
 				for i := 1; i <= capacity; i++ {
 					put(i)
 				}
-				out := vh.GuardTimeout(5*time.Second, func() { putForce(1000) })
+				out := vh.GuardTimeout(hangLimit, func() { putForce(1000) })
 				name := qname(dbl)
 				rep.Case(fmt.Sprintf("callback-window %s cap=%d", name, capacity), true)
 				rep.Count("callback-window:runs")
@@ -1228,10 +1238,10 @@ func callbackWindow(env *vh.Env, rep *vh.Report) {
 				select {
 				case accepted = <-innerDone:
 					finished = true
-				case <-time.After(2 * time.Second):
+				case <-time.After(hangLimit):
 				}
 				sz := -1
-				vh.GuardTimeout(2*time.Second, func() { sz = size() })
+				vh.GuardTimeout(hangLimit, func() { sz = size() })
 				replay := map[string]interface{}{"type": name, "capacity": capacity, "size_after": sz, "inner_put_accepted": accepted, "inner_put_finished": finished,
 					"inner_put_returned_while_putforce_in_flight": atomic.LoadInt32(&innerReturnedInFlight) == 1,
 					"how": "fill the queue to capacity; Overflowed callback starts a goroutine doing Put(9999) and waits ≤150 ms for it; call PutForce(1000); then read Size()"}
@@ -1282,7 +1292,7 @@ func timedUnderDelta(env *vh.Env, rep *vh.Report) {
 				dateutil.SetDelta(dc.delta(ms))
 				before := dateutil.SystemNow()
 				var v interface{}
-				out := vh.GuardTimeout(time.Duration(ms)*time.Millisecond+5*time.Second, func() { v = get(ms) })
+				out := vh.GuardTimeout(time.Duration(ms)*time.Millisecond+hangLimit, func() { v = get(ms) })
 				after := dateutil.SystemNow()
 				dateutil.SetDelta(saved)
 				name := qname(dbl)
@@ -1347,49 +1357,63 @@ func timedArrival(env *vh.Env, rep *vh.Report) {
 				map[string]interface{}{"line": lines[i], "driver": outs[i], "scenario": sc.name})
 		}
 		for _, dbl := range []bool{false, true} {
-			timeout := 250
-			var getT func(int) interface{}
-			var put func(interface{}) bool
-			var size func() int
-			if dbl {
-				d := queue.NewRequestDoubleQueue(0, 0)
-				getT, put, size = d.GetTimeout, d.Put1, d.Size
-			} else {
-				q := queue.NewRequestQueue(0)
-				getT, put, size = q.GetTimeout, q.Put, q.Size
-			}
-			var v interface{}
-			before := dateutil.SystemNow()
-			done := make(chan vh.Outcome, 1)
-			go func() {
-				done <- vh.GuardTimeout(time.Duration(timeout)*time.Millisecond+5*time.Second, func() { v = getT(timeout) })
-			}()
-			time.Sleep(25 * time.Millisecond) // the first poll has found the queue empty
-			for _, x := range sc.puts {
-				put(elem(x))
-			}
-			out := <-done
-			after := dateutil.SystemNow()
 			name := qname(dbl)
+			// one attempt: GetTimeout(timeout) waits on an empty queue, the puts follow 25 ms later
+			attempt := func(timeout int) (got, sz int, out vh.Outcome, elapsed int64) {
+				var getT func(int) interface{}
+				var put func(interface{}) bool
+				var size func() int
+				if dbl {
+					d := queue.NewRequestDoubleQueue(0, 0)
+					getT, put, size = d.GetTimeout, d.Put1, d.Size
+				} else {
+					q := queue.NewRequestQueue(0)
+					getT, put, size = q.GetTimeout, q.Put, q.Size
+				}
+				var v interface{}
+				before := dateutil.SystemNow()
+				done := make(chan vh.Outcome, 1)
+				go func() {
+					done <- vh.GuardTimeout(time.Duration(timeout)*time.Millisecond+hangLimit, func() { v = getT(timeout) })
+				}()
+				time.Sleep(25 * time.Millisecond)
+				for _, x := range sc.puts {
+					put(elem(x))
+				}
+				out = <-done
+				elapsed = dateutil.SystemNow() - before
+				sz = -1
+				vh.GuardTimeout(hangLimit, func() { sz = size() })
+				return unelem(v), sz, out, elapsed
+			}
+			timeout := 250
+			got, sz, out, elapsed := attempt(timeout)
+			if out.OK() && sc.want != 0 && got == 0 {
+				// The loop polls, sleeps a third of the remaining time and gives up *without polling again* once the
+				// deadline has passed: on a busy machine a descheduled caller can sleep through a 250 ms deadline
+				// and legitimately miss an element that arrived meanwhile.  Decide with a deadline that a stall
+				// cannot eat up: 6 s (first sleep 2 s, margin 4 s).
+				rep.Count("timed:arrival-retried-with-long-timeout")
+				timeout = 6000
+				got, sz, out, elapsed = attempt(timeout)
+			}
 			rep.Case(fmt.Sprintf("timed-arrival %s %s", name, sc.name), true)
 			rep.Count("timed:arrival-scenarios")
 			replay := map[string]interface{}{"type": name, "scenario": sc.name, "timeout_ms": timeout, "puts_while_waiting": sc.puts,
-				"returned": unelem(v), "model": outs[i], "how": "GetTimeout(250) on an empty queue in one goroutine; 25 ms later the puts; compare the result with Queue.timedGetQ"}
-			sz := -1
-			vh.GuardTimeout(2*time.Second, func() { sz = size() })
+				"returned": got, "model": outs[i], "how": "GetTimeout(timeout) on an empty queue in one goroutine; 25 ms later the puts; compare the result with Queue.timedGetQ"}
 			switch {
 			case !out.OK():
 				rep.Fail("property", name+".GetTimeout:"+out.String(), "GetTimeout did not return although "+sc.name, replay)
-			case unelem(v) != sc.want:
+			case got != sc.want:
 				key := name + ".GetTimeout:missed-arrival"
 				if sc.want == 0 {
 					key = name + ".GetTimeout:phantom-element"
 				}
-				rep.Fail("property", key, fmt.Sprintf("%s: GetTimeout(%d) returned %d, the polling-loop model returns %d", sc.name, timeout, unelem(v), sc.want), replay)
+				rep.Fail("property", key, fmt.Sprintf("%s: GetTimeout(%d) returned %d, the polling-loop model returns %d", sc.name, timeout, got, sc.want), replay)
 			case sz != sc.left:
 				rep.Fail("property", name+".GetTimeout:conservation", fmt.Sprintf("%s: Size() = %d afterwards, the model leaves %d", sc.name, sz, sc.left), replay)
-			case sc.want == 0 && int(after-before) < timeout:
-				rep.Fail("property", name+".GetTimeout:returned-early", fmt.Sprintf("returned empty-handed after %d ms of %d", after-before, timeout), replay)
+			case sc.want == 0 && int(elapsed) < timeout:
+				rep.Fail("property", name+".GetTimeout:returned-early", fmt.Sprintf("returned empty-handed after %d ms of %d", elapsed, timeout), replay)
 			}
 		}
 	}
@@ -1465,7 +1489,7 @@ func blockedConsumers(env *vh.Env, rep *vh.Report) {
 		var got []int
 		bad := ""
 		seen := map[int]bool{}
-		deadline := time.After(2 * time.Second)
+		deadline := time.After(hangLimit)
 	collect:
 		for len(got) < j {
 			select {
@@ -1485,7 +1509,7 @@ func blockedConsumers(env *vh.Env, rep *vh.Report) {
 					break collect
 				}
 			case <-deadline:
-				bad = fmt.Sprintf("only %d of %d consumers returned within 2 s after %d puts (Size() = %d)", len(got), j, j, api.size())
+				bad = fmt.Sprintf("only %d of %d consumers returned within 25 s after %d puts (Size() = %d)", len(got), j, j, api.size())
 				break collect
 			}
 		}
@@ -1577,7 +1601,7 @@ func nilStress(env *vh.Env, rep *vh.Report) {
 			hung := false
 			select {
 			case <-fin:
-			case <-time.After(10 * time.Second):
+			case <-time.After(hangLimit):
 				hung = true
 			}
 			rep.Case(fmt.Sprintf("nil-stress %s mode=%d", api.name, mode), true)
@@ -1591,7 +1615,7 @@ func nilStress(env *vh.Env, rep *vh.Report) {
 					fmt.Sprintf("%s: %d blocking Get() calls returned nil although only the elements 1..%d were put", api.name, atomic.LoadInt64(&nils), n), replay)
 				return
 			case hung:
-				rep.Fail("property", api.name+".Get:stranded-consumer", "consumers did not finish within 10 s after the producer's last put", replay)
+				rep.Fail("property", api.name+".Get:stranded-consumer", "consumers did not finish within 25 s after the producer's last put", replay)
 				return
 			case atomic.LoadInt64(&dups) > 0 || atomic.LoadInt64(&taken) != int64(n):
 				rep.Fail("property", api.name+".Get:not-exactly-once",
@@ -1655,18 +1679,25 @@ func fifoWake(env *vh.Env, rep *vh.Report) {
 		time.Sleep(1500 * time.Microsecond)
 		fifoRelease(mu)
 		var got []int
-		timeout := time.After(300 * time.Millisecond)
-	collect:
-		for len(got) < k {
-			select {
-			case v := <-results:
-				got = append(got, unelem(v))
-			case <-timeout:
-				break collect
+		select { // the first return: bounded by the hang limit only
+		case v := <-results:
+			got = append(got, unelem(v))
+		case <-time.After(hangLimit):
+		}
+		if len(got) == 1 { // a second consumer let through comes back (with nil) right away; its absence is the good case
+			extra := time.After(150 * time.Millisecond)
+		collect:
+			for len(got) < k {
+				select {
+				case v := <-results:
+					got = append(got, unelem(v))
+				case <-extra:
+					break collect
+				}
 			}
 		}
 		// let the remaining consumers go
-		vh.GuardTimeout(2*time.Second, func() {
+		vh.GuardTimeout(hangLimit, func() {
 			release()
 			for i := 0; i < k; i++ {
 				api.put(1000 + i)
@@ -1677,9 +1708,10 @@ func fifoWake(env *vh.Env, rep *vh.Report) {
 		bad := ""
 		switch {
 		case len(got) == 0:
-			bad = "no consumer returned within 300 ms although an element was put"
-		case len(got) > 1 || got[0] != 777:
-			bad = fmt.Sprintf("the consumers returned %v for the single element 777 (0 = nil)", got)
+			bad = "no consumer returned within 25 s although an element was put"
+		case len(got) > 1 || (got[0] != 777 && got[0] != 901 && got[0] != 902):
+			// (which of the three parked puts wins the single slot depends on their arrival order)
+			bad = fmt.Sprintf("the consumers returned %v for the single element that fits into the queue (0 = nil)", got)
 		}
 		if bad != "" {
 			key := api.name + ".Get:returned-nothing"
@@ -1724,7 +1756,7 @@ func timedOutThenPut(env *vh.Env, rep *vh.Report) {
 					bad := ""
 					for i := 0; i < n && bad == ""; i++ {
 						var v interface{}
-						if o := vh.GuardTimeout(5*time.Second, func() { v = getT(2 + i) }); !o.OK() {
+						if o := vh.GuardTimeout(hangLimit, func() { v = getT(2 + i) }); !o.OK() {
 							bad = "GetTimeout on an empty queue: " + o.String()
 						} else if v != nil {
 							bad = fmt.Sprintf("GetTimeout on an empty queue returned %v", v)
@@ -1734,7 +1766,7 @@ func timedOutThenPut(env *vh.Env, rep *vh.Report) {
 					if bad == "" {
 						put(4242)
 						time.Sleep(12 * time.Millisecond)
-						o := vh.GuardTimeout(2*time.Second, func() {
+						o := vh.GuardTimeout(hangLimit, func() {
 							szv = size()
 							if blocking {
 								got = unelem(get())
@@ -1858,8 +1890,8 @@ func clearRaces(env *vh.Env, rep *vh.Report) {
 		bad := ""
 		select {
 		case <-fin:
-		case <-time.After(15 * time.Second):
-			bad = "producers / Clear did not finish within 15 s"
+		case <-time.After(hangLimit):
+			bad = "producers / Clear did not finish within 25 s"
 		}
 		if bad == "" {
 			// let the consumer drain, then stop it
@@ -1879,7 +1911,7 @@ func clearRaces(env *vh.Env, rep *vh.Report) {
 			}
 			select {
 			case <-consumerDone:
-			case <-time.After(5 * time.Second):
+			case <-time.After(hangLimit):
 				if bad == "" {
 					bad = "the consumer blocked in Get() did not return although elements were put after the last Clear (lost wake-up)"
 				}
@@ -1968,7 +2000,7 @@ func panickingCallbacks(env *vh.Env, rep *vh.Report) {
 			at("panicking callbacks: %s full at capacity 2, %s(3) with a panicking callback, recovered; then Size/GetNoWait/Put/Clear", v.name, method)
 			put(1)
 			put(2)
-			out := vh.GuardTimeout(3*time.Second, func() {
+			out := vh.GuardTimeout(hangLimit, func() {
 				if forced {
 					force(3)
 				} else {
@@ -1984,7 +2016,7 @@ func panickingCallbacks(env *vh.Env, rep *vh.Report) {
 				continue
 			}
 			sz, got := -1, -1
-			after := vh.GuardTimeout(2*time.Second, func() {
+			after := vh.GuardTimeout(hangLimit, func() {
 				sz = size()
 				got = unelem(getNW())
 				vh.Guard(func() { put(9) })
